@@ -269,7 +269,7 @@ func runC13(r *rt.Run) {
 	radii := []float64{0, 1e-3, 0.01, 0.05, 0.1, 0.5, 1, 10, 1e3, 1e5, 1e6, 5e6, 1e7, piR - 1, piR}
 	factors := []float64{0, .5, 1 - 1e-4, 1 - 3e-8, 1 + 3e-8, 1 + 1e-4, 1.5}
 	// absolute offsets from the radius just outside the 1 mm band (sub-metre radii)
-	offsets := []float64{-0.0015, 0.0015, -0.004, 0.004}
+	offsets := []float64{-0.0015, 0.0015, -0.004, 0.004, -0.0025, 0.0025}
 	bstep := 15.0
 	if th {
 		bstep = 1
@@ -277,13 +277,34 @@ func runC13(r *rt.Run) {
 		radii = append(radii, 100, 1e4, 3e6, 1.5e7, 0.25, 2, 55.5, 12345.678, 2e6, 1.9e7)
 		factors = append(factors, 0.25, 0.9, 1-1e-6, 1+1e-6, 1.1, 2)
 	}
+	coarse := len(radii) // the alphabet used for monotonicity / circle-circle / serialisation
+	// dense grid: every mantissa x decade radius at every (lat, lon) of a grid
+	// with poles, near-poles, the antimeridian and irregular values
+	for _, dec := range []float64{1e-3, 1e-2, 1e-1, 1, 10, 100, 1e3, 1e4, 1e5, 1e6, 1e7} {
+		for _, m := range []float64{1.1, 1.5, 2, 2.2, 2.5, 3, 3.5, 4, 5, 6, 7, 8, 9} {
+			if rr := m * dec; rr < piR {
+				radii = append(radii, rr)
+			}
+		}
+	}
+	glats := []float64{-89.999, -75, -45, -27.5, -10.5, -0.0001, 10, 33, 45, 60, 75, 89, 89.99}
+	glons := []float64{-180, -179.9999, -112, -51, -0.0001, 0, 10, 45, 102, 179.9999}
+	if th {
+		glats = append(glats, -89.9, -60, -33.3, 0, 0.5, 21.7, 51.477, 66.56, 80, 85.05, 89.9999)
+		glons = append(glons, -150, -90.5, -30, 0.0001, 77.7, 120, 151.2, 180)
+	}
+	for _, la := range glats {
+		for _, lo := range glons {
+			centres = append(centres, ctr{lo, la})
+		}
+	}
 	r.Bounds["centres"] = len(centres)
 	r.Bounds["radii"] = radii
 	r.Bounds["distance_factors"] = factors
 	r.Bounds["absolute_offsets_m"] = offsets
 	r.Bounds["bearing_step_deg"] = bstep
 	r.Bounds["step_counts"] = "-1..4096"
-	r.Rule = "full product centres x radii x bearings x distance factors (probe = reference destination point) as Point and SimplePoint, both operand orders, contains and intersects; monotonicity along the radius alphabet; circle-circle over the same grid x radius alphabet; serialisation / polygon for radii incl. negative, NaN, Inf, 3piR and every step count -1..4096; non-trivial = probe outside the tolerance band"
+	r.Rule = "full product centres (7 special + 13 x 10 grid of latitudes incl. near-poles x longitudes incl. antimeridian) x radii (15 boundary values + 13 mantissas x 11 decades from 1 mm to 10,000 km) x bearings x distance factors (probe = reference destination point) as Point and SimplePoint, both operand orders, contains and intersects; monotonicity along the radius alphabet; circle-circle over the same grid x radius alphabet; serialisation / polygon for radii incl. negative, NaN, Inf, 3piR and every step count -1..4096; non-trivial = probe outside the tolerance band"
 	r.Assume = []string{"sphere radius 6371e3 m", "reference distance: verif/mc/sphere; inside the stated band (max(1 mm, 1e-8 r)) either answer is accepted"}
 	r.States.Add(int64(len(centres) * len(radii)))
 	r.ParFor(len(centres)*len(radii), func(i int, w *rt.Worker) {
@@ -299,13 +320,13 @@ func runC13(r *rt.Run) {
 					w.Nontriv++
 				}
 				geoRun(w, "circle-point", c.lat, c.lon, rr, pl, po)
-				for _, r2 := range radii {
+				for _, r2 := range radii[:coarse] {
 					if r2 > rr {
 						geoRun(w, "circle-monotone", c.lat, c.lon, rr, r2, pl, po)
 					}
 				}
 				if f > 0 && int(b)%45 == 0 {
-					for _, rb := range radii {
+					for _, rb := range radii[:coarse] {
 						geoRun(w, "circle-circle", c.lat, c.lon, rr, pl, po, rb)
 					}
 				}
@@ -322,7 +343,7 @@ func runC13(r *rt.Run) {
 		w.Outcome(fmt.Sprintf("r=%g", rr))
 	})
 	// serialisation and polygon: all step counts
-	ser := append(append([]float64(nil), radii...), -1, math.NaN(), math.Inf(1), 3*piR)
+	ser := append(append([]float64(nil), radii[:coarse]...), -1, math.NaN(), math.Inf(1), 3*piR)
 	r.ParFor(4098, func(i int, w *rt.Worker) {
 		steps := float64(i - 1)
 		for ci, c := range centres {
